@@ -1,6 +1,6 @@
 from checks import apifam
 GUARDS = {"NoOverlap", "ContentsKept.gen", "ContentsKept.bytes", "ObsOfLiveBlock", "CheckAllComplete", "FreeOfLiveBlock",
-          "ReallocOfLiveBlock", "QueryOfLiveBlock", "WriteOfLiveBlock", "UsableStable", "MovedDisjointFromOld"}
+          "ReallocOfLiveBlock", "QueryOfLiveBlock", "WriteOfLiveBlock", "UsableStable", "MovedDisjointFromOld", "BatchSortedDisjoint"}
 def run(tier, seed):
-    return apifam.run_api("C01", tier, seed, profiles=["c01", "c01", "c05", "c10"], builds=["rel", "dbg", "sec"], own_guards=GUARDS,
+    return apifam.run_api("C01", tier, seed, profiles=["c01", "bulk", "c05", "c10", "bulk", "c01"], builds=["rel", "dbg", "sec"], own_guards=GUARDS,
                           crash_decisive=True)
